@@ -1,0 +1,51 @@
+//go:build verif
+// +build verif
+
+package cache
+
+// This file is only compiled with the "verif" build tag. It adds read-only accessors and a synchronous
+// entry point to the cleanup cycle for the verification machinery in /verif; it changes no behavior.
+
+// VerifKeyLocks returns the number of per-key build locks currently held.
+func (f *Failover) VerifKeyLocks() int {
+	f.lock.Lock()
+	defer f.lock.Unlock()
+
+	return len(f.keyLocks)
+}
+
+// VerifKeyLocks returns the number of per-key build locks currently held.
+func (f *FailoverOf[V]) VerifKeyLocks() int {
+	f.lock.Lock()
+	defer f.lock.Unlock()
+
+	return len(f.keyLocks)
+}
+
+// VerifCleanup runs one cleanup cycle (delete expired + eviction) synchronously, exactly as the janitor does.
+func (c *shardedMap) VerifCleanup() { c.t.invokeCleanup() }
+
+// VerifCleanup runs one cleanup cycle (delete expired + eviction) synchronously, exactly as the janitor does.
+func (c *syncMap) VerifCleanup() { c.t.invokeCleanup() }
+
+// VerifCleanup runs one cleanup cycle (delete expired + eviction) synchronously, exactly as the janitor does.
+func (c *shardedMapOf[V]) VerifCleanup() { c.t.invokeCleanup() }
+
+// VerifIndexDump returns a deep copy of the label index: cache name -> label -> keys.
+func (i *InvalidationIndex) VerifIndexDump() map[string]map[string][]string {
+	i.mu.Lock()
+	defer i.mu.Unlock()
+
+	res := make(map[string]map[string][]string, len(i.labeledKeysByName))
+
+	for name, labeledKeys := range i.labeledKeysByName {
+		m := make(map[string][]string, len(labeledKeys))
+		for label, keys := range labeledKeys {
+			m[label] = append([]string(nil), keys...)
+		}
+
+		res[name] = m
+	}
+
+	return res
+}
